@@ -35,6 +35,10 @@ static std::string get_readable_ip_address(std::string& wire_ip, bool ipv6)
         buflen = INET_ADDRSTRLEN + 4;
     }
 
+    // inet_ntop() reads 4 (16) bytes of address no matter how much data there really is
+    if (wire_ip.size() < (ipv6 ? 16u : 4u))
+        return wire_ip;
+
     char addrBuf[buflen];
     auto ret = inet_ntop(ipv, wire_ip.data(), addrBuf, sizeof(addrBuf));
 
